@@ -388,7 +388,7 @@ func (e *Engine) Run(t *core.Tape, cfg *core.Config, st *core.Stats) (viol *core
 	for i := 0; i < nops; i++ {
 		name := names[t.Choose(nn)]
 		fpath := filepath.Join(dir, fileKey(name)+".lua")
-		switch k := t.Weighted([]int{8, 5, 1, 1, 3, 2, 2, 1, 1, 1, 1, 1, 1, 1, 1}); k {
+		switch k := t.Weighted([]int{8, 5, 1, 1, 3, 2, 2, 1, 1, 1, 1, 1, 1, 1, 1, 1}); k {
 		case 0: // require
 			if !reduced && t.Choose(6) == 0 {
 				// require with an error injected at an arbitrary instruction while loaders run
@@ -775,6 +775,46 @@ func (e *Engine) Run(t *core.Tape, cfg *core.Config, st *core.Stats) (viol *core
 				return fail("host-module", "in a state without the package library, require of a registered host module and of an opened library must return the tables bound to their global names; got %s", res)
 			}
 			st.Probe("sandbox_state_require")
+		case 15: // a searcher of the program's own that probes an optional module (a contained, failing require) while another require is searching
+			if reduced {
+				continue
+			}
+			var res string
+			func() {
+				defer func() {
+					if r := recover(); r != nil {
+						res = fmt.Sprintf("Go panic: %v", r)
+					}
+				}()
+				S := lua.NewState()
+				defer S.Close()
+				S.SetGlobal("DIR", lua.LString(dir))
+				depth := 1 + t.Choose(3)
+				S.SetGlobal("DEPTH", lua.LNumber(depth))
+				if err := S.DoString(`package.path = DIR .. "/?.lua;" .. DIR .. "/?/init.lua"
+for i = 1, 2 do pcall(require, "optional_first_" .. i) end
+local level = 0
+table.insert(package.loaders, 2, function(name)
+  if level < DEPTH then
+    level = level + 1
+    pcall(require, "inner_opt_" .. level)
+    level = level - 1
+  end
+  return "\n\tnothing from the program's searcher for '" .. name .. "'"
+end)
+local ok, msg = pcall(require, "outer_missing")
+RES = tostring(ok) .. "\1" .. tostring(msg)`); err != nil {
+					res = "error: " + err.Error()
+					return
+				}
+				res = S.GetGlobal("RES").String()
+			}()
+			log = append(log, fmt.Sprintf("fresh state: a searcher that probes optional modules while require(\"outer_missing\") searches -> %s", firstLine(res)))
+			if !strings.HasPrefix(res, "false\x01") || !strings.Contains(res, "preload['outer_missing']") || !strings.Contains(res, "nothing from the program's searcher for 'outer_missing'") ||
+				strings.Count(res, "outer_missing.lua") < 1 || strings.Contains(res, "inner_opt_") {
+				return fail("wrong-error", "the not-found error of require(\"outer_missing\") must list what was tried for that module - the preload entry, the program's searcher, the path - and nothing that was tried for the optional modules its searcher probed meanwhile; got %q", res)
+			}
+			st.Probe("nested_require_inside_a_searcher")
 		case 9: // a storm of failing loads: the same broken module is unloaded and required again many times
 			if reduced {
 				continue
